@@ -1,8 +1,17 @@
 pub mod c01;
 pub mod common;
+pub mod seqdom;
+pub mod seqprops;
 
 use crate::runner::Prop;
 
 pub fn all() -> Vec<Box<dyn Prop>> {
-    vec![Box::new(c01::C01)]
+    vec![
+        Box::new(c01::C01),
+        Box::new(seqprops::C02),
+        Box::new(seqprops::C03),
+        Box::new(seqprops::C10),
+        Box::new(seqprops::C11),
+        Box::new(seqprops::C16),
+    ]
 }
